@@ -1,6 +1,7 @@
 #!/bin/sh
 # Hand-written mutants of PRISM.cost run on a scratch copy of /repo (REPO=<copy>), removed afterwards.
 # Expected: the four real mutants exit 1 (VIOLATION), the algebraically equal reordering exits 2 (undecided), never 1.
+export PYVC_EVIDENCE_DIR=${PYVC_EVIDENCE_DIR:-/tmp/pyvc_evidence_scratch}   # runs on modified trees never overwrite /verif/evidence
 set -u
 W=$(mktemp -d /tmp/handmut.XXXXXX); cp -r /repo "$W/repo"; rm -rf "$W/repo/.git" "$W/repo/build"
 F=pyPRISM/core/PRISM.py
